@@ -77,7 +77,7 @@ def make_frac(rng, d, N, kind):
     if kind == "gas":
         f = rng.random((N, d))
     elif kind == "lattice":
-        n = max(1, int(round(N ** (1.0 / d))))
+        n = max(1, int(np.ceil(N ** (1.0 / d) - 1e-9)))
         ncell = [n] * d
         lk = rng.choice(["sq", "hexrect"]) if d == 2 else rng.choice(["sc", "bcc", "fcc"])
         f = lattice_frac(d, lk, ncell)
